@@ -113,7 +113,7 @@ class FuncSrc:
         text, tree = FuncSrc._files[self.filename]
         node = None
         for n in ast.walk(tree):
-            if isinstance(n, (ast.FunctionDef, ast.Lambda)) and getattr(n, "name", "<lambda>") == fn.__name__:
+            if isinstance(n, (ast.FunctionDef, ast.Lambda)) and getattr(n, "name", "<lambda>") in (fn.__name__, code.co_name):
                 first = min([n.lineno] + [d.lineno for d in getattr(n, "decorator_list", [])])
                 if first == code.co_firstlineno or n.lineno == code.co_firstlineno:
                     node = n
@@ -137,9 +137,9 @@ class FuncSrc:
 
     def provenance(self):
         """checks that the verified text is the code that runs"""
-        ok_file = inspect.getsourcefile(self.fn) == self.filename
+        ok_file = inspect.getsourcefile(self.fn.__code__) == self.filename
         try:
-            live = textwrap.dedent(inspect.getsource(self.fn))
+            live = textwrap.dedent(inspect.getsource(self.fn.__code__))
             seg = textwrap.dedent(self.segment if not self.node.col_offset else
                                   " " * self.node.col_offset + self.segment)
             # decorators are part of inspect.getsource but not of the node segment
@@ -209,7 +209,7 @@ class Interp:
         """interpret the body of real function `fn` (from its source in the tree)"""
         src = FuncSrc.get(fn)
         f = unwrap(fn)
-        sig = inspect.signature(f)
+        sig = inspect.signature(f, follow_wrapped=False)
         try:
             bound = sig.bind(*args, **kwargs)
         except TypeError as exc:
@@ -810,6 +810,10 @@ class Interp:
                 spec = ""
                 if v.format_spec is not None:
                     spec = self.eval(v.format_spec, frame)
+                from .strsym import SStr, format_field
+                if isinstance(val, SStr) or (isinstance(val, Sym) and val.is_int and getattr(self, "fstring_symbolic", False)):
+                    parts.append(format_field(self, val, spec))
+                    continue
                 if deep_sym(val):
                     parts.append("<sym>")
                     continue
@@ -818,6 +822,9 @@ class Interp:
                 elif v.conversion == ord("s"):
                     val = str(val)
                 parts.append(format(val, spec))
+        from .strsym import SStr
+        if any(isinstance(p, SStr) for p in parts):
+            return SStr(parts)
         return "".join(parts)
 
     def e_FormattedValue(self, node, frame):
@@ -906,6 +913,9 @@ class Interp:
     def call_value(self, f, args, kwargs, node=None, frame=None):
         if isinstance(f, Intrinsic):
             return self.models.intrinsic(self, f, args, kwargs, node, frame)
+        special = self.models.builtin_method_hook(self, f, args, kwargs)
+        if special is not self.models.NOHOOK:
+            return special
         if isinstance(f, Closure):
             return f(*args, **kwargs)
         if getattr(f, "__pyvc_native__", False):
@@ -922,7 +932,8 @@ class Interp:
                                                     or _has_fraction(kwargs.values()) or self.models.model_is_always(f)):
             self.trusted_used.add("model:" + m.__name__)
             return m(self, *args, **kwargs)
-        if isinstance(f, type) and f.__module__.startswith("typhon") and not self.concrete:
+        if isinstance(f, type) and f.__module__.startswith("typhon") and not self.concrete \
+                and (deep_sym(args) or deep_sym(kwargs)):
             return self.models.construct(self, f, args, kwargs, node, frame)
         if deep_sym(args) or deep_sym(kwargs):
             if self.models.transparent(f):
